@@ -1,6 +1,6 @@
 # Sizing and claim for C03 (conversions are total and memory-safe)
 SPEC = {
-    "quick": {"rc_cases": 12000, "rc_procs": 12, "enum": True},
+    "quick": {"rc_cases": 10000, "rc_procs": 12, "enum": True},
     "thorough": {"rc_cases": 100000, "rc_procs": 12, "enum": True, "fuzz_secs": 240, "fuzz_workers": 12},
     "assumptions": [
         "harness/ref/ref_unicode.h is a correct reading of the tolerated/offending forms listed in C02 and of the standard encodings",
